@@ -47,6 +47,31 @@ OPS2 = [
 ]
 
 
+# third operator set (--ops3): statement deletion, conditions forced to true / false, match guards removed
+def ops3_line(l):
+    code = l.split("//")[0]
+    s = code.strip()
+    out = []
+    if s.endswith(";") and not s.startswith(("let ", "return", "use ", "pub ", "}", "type ", "const ", "static ", "break", "continue")) \
+            and s.count("(") == s.count(")") and s.count("{") == s.count("}"):
+        out.append((code[: len(code) - len(code.lstrip())] + ";", "delete statement"))
+    m = re.search(r"\bif (?!let\b)(.+) \{\s*$", code)
+    if m and "else if" not in code[: m.start()] + "x":
+        out.append((code[: m.start()] + "if true {", "condition -> true"))
+        out.append((code[: m.start()] + "if false {", "condition -> false"))
+    m = re.search(r"\belse if (?!let\b)(.+) \{\s*$", code)
+    if m:
+        out.append((code[: m.start()] + "else if true {", "else-if condition -> true"))
+        out.append((code[: m.start()] + "else if false {", "else-if condition -> false"))
+    m = re.search(r"\) if (.+?) =>", code)
+    if m:
+        out.append((code[: m.start()] + ") =>" + code[m.end():], "match guard removed"))
+    m = re.search(r"\.filter\(([^()]|\([^()]*\))*\)", code)
+    if m:
+        out.append((code[: m.start()] + code[m.end():], "filter removed"))
+    return [(new, what) for new, what in out if new != code]
+
+
 def mutants(path):
     src = open(path).read().split("\n")
     end = len(src)
@@ -61,6 +86,10 @@ def mutants(path):
         if not s or s.startswith("//") or s.startswith("#[") or s.startswith("use ") or "cfg(feature" in l or "verif" in l:
             continue
         code = l.split("//")[0]
+        if "--ops3" in sys.argv:
+            for new, what in ops3_line(l):
+                out.append((i, l, new + l[len(code):], what))
+            continue
         for pat, rep in (OPS2 if "--ops2" in sys.argv else OPS):
             for m in re.finditer(pat, code):
                 new = code[: m.start()] + (rep(m) if callable(rep) else rep) + code[m.end():]
